@@ -309,6 +309,16 @@ def c15_validate_unknown_structure():
     return (a,), a == 'other:AttributeError'
 
 
+@case
+def c07_truncation_duplicate_accepted():
+    ec = {'FIELD': '|', 'COMPONENT': '^', 'SUBCOMPONENT': '&', 'REPETITION': '~', 'ESCAPE': '\\', 'TRUNCATION': '^',
+          'SEGMENT': '\r', 'GROUP': '\r'}
+    m = Message('ADT_A01', version='2.7', encoding_chars=ec)
+    txt = m.to_er7()
+    r = raises(InvalidEncodingChars, parse_message, txt)
+    return (txt[:12], r), r is True
+
+
 if __name__ == '__main__':
     names = sys.argv[1:] or sorted(CASES)
     for n in names:
